@@ -215,6 +215,7 @@ ValsAll  == << <<16, 5>>, <<16, 251>>, <<16, 127>>, <<16, 128>>, <<17, 255, 127>
 NamesAB  == << <<97>>, <<98>>, <<99>> >>
 NamesRich == << <<>>, <<0>>, <<97>>, <<97, 0>>, <<97, 0, 120>>, <<97, 0, 121>>, <<97, 97>>, <<98>>, <<128>>, <<255>> >>
 NamesE == << <<>>, <<97>> >>
+NamesA == << <<97>> >>      \* one name: objects have at most one field, the node budget goes into nesting
 Rep(b, n) == [i \in 1..n |-> b]
 \* names whose length prefix needs 1 and 2 bytes (127 / 128) around short ones
 NamesLong == << <<97>>, Rep(109, 127), Rep(109, 128), <<122>> >>
